@@ -722,7 +722,7 @@ func genScript(r *rng.R, kind string, n int) corr.Case {
 	item := func() string { next++; return strconv.Itoa(next - 1) }
 	extreme := r.Chance(1, 3) // a third of the PriQueue histories mix in extreme priorities
 	size, closed := 0, false  // rough estimate, only steers the generator (never decides a result)
-	closeAt := -1            // at most one close, in the second half (a third of the histories never close)
+	closeAt := -1             // at most one close, in the second half (a third of the histories never close)
 	if r.Chance(2, 3) {
 		closeAt = r.Range(n/2, n-1)
 	}
